@@ -1,7 +1,8 @@
 #!/bin/sh
 # Runs every claimed check (quick by default) against /repo and rewrites all evidence files. usage: run_all.sh [quick|thorough]
 tier=${1:-quick}
-cd /verif
+cd "$(dirname "$0")/.."
+mkdir -p out
 rc=0
 for p in $(python3 -c "import json; print(' '.join(c['property_id'] for c in json.load(open('MANIFEST.json'))['checks']))"); do
   ./check $p --tier $tier > out/last-$p.log 2>&1; r=$?
